@@ -1,11 +1,10 @@
 #!/bin/bash
-# tools/seed_matrix.sh: every seeded change x the quick checks expected to see it.
+# tools/seed_matrix.sh: every seeded change x the quick checks recorded as seeing it (meta.json).
 # Writes seeded/<id>/last_run.txt; never commits to the repository.
 cd "$(dirname "$0")/.."
-declare -A EXTRA=( [C07-1]="C12" [C11-1]="C10" [C03-2]="C10" [C05-1]="C04" [C01-2]="C06" )
 for d in seeded/*/; do
-  id=$(basename "$d"); prop=${id%-*}
-  props="$prop ${EXTRA[$id]:-}"
+  id=$(basename "$d")
+  props=$(python3 -c "import json,sys; print(' '.join(json.load(open('seeded/$id/meta.json'))['detected_by_quick_checks']))")
   echo "=== $id -> $props"
   tools/try_seed.sh "$(pwd)/seeded/$id" $props > "seeded/$id/last_run.txt" 2>&1
   grep -E "^== |^tests|^demo|^PATCH" "seeded/$id/last_run.txt"
